@@ -73,6 +73,7 @@ type Ctx struct {
 	minLenMemo map[*FuncInfo][]ssa.Value
 	mustMemo   map[*ssa.Function]map[string]bool
 	lenPres    map[[2]any]bool
+	lenRes     map[*ssa.Function]int
 	nnMemo     map[ssa.Value]bool
 	aliases    map[*types.Var]string
 	role       *roleInfo
